@@ -502,6 +502,7 @@ fn c06_fault(case: &Case) {
                 Kill::Fin => {
                     srv_case.probe("fault.close_fin");
                     net::close_side(&conn, Side::B);
+                    sleep_ms(HOLD_MS).await;
                 }
                 Kill::Reset => net::reset_conn(&conn),
                 Kill::Text => {
